@@ -175,3 +175,37 @@ func ScaleXY(t Tree, exp int) Tree {
 		c[1] = math.Ldexp(c[1], exp)
 	})
 }
+
+// SizedTree builds a tree whose first curve has exactly n vertices (distinct small integer ordinates) and is
+// followed by further curves in the same parent, so that decoders working through reusable buffers meet
+// every buffer length. kind 0: MultiLineString, 1: Polygon (rings; n >= 4), 2: GeometryCollection.
+func SizedTree(kind, n int, ct geom.CoordinatesType) Tree {
+	d := ct.Dimension()
+	line := func(m, salt int, closed bool) Tree {
+		t := Tree{Type: geom.TypeLineString, CT: ct}
+		for i := 0; i < m; i++ {
+			for j := 0; j < d; j++ {
+				t.Coords = append(t.Coords, float64(salt+i*7+j*3))
+			}
+		}
+		if closed && m >= 2 {
+			copy(t.Coords[(m-1)*d:], t.Coords[:d])
+		}
+		return t
+	}
+	switch kind {
+	case 0:
+		return Tree{Type: geom.TypeMultiLineString, CT: ct, Kids: []Tree{line(n, 1, false), line(3, 5000, false), line(2, 9000, false)}}
+	case 1:
+		if n < 4 {
+			n = 4
+		}
+		return Tree{Type: geom.TypePolygon, CT: ct, Kids: []Tree{line(n, 1, true), line(4, 5000, true)}}
+	default:
+		pt := Tree{Type: geom.TypePoint, CT: ct}
+		for j := 0; j < d; j++ {
+			pt.Coords = append(pt.Coords, float64(-1-j))
+		}
+		return Tree{Type: geom.TypeGeometryCollection, CT: ct, Kids: []Tree{line(n, 1, false), pt, line(2, 5000, false)}}
+	}
+}
